@@ -67,6 +67,10 @@ def run(ctx):
                 impure.append((f, n))
             elif isinstance(n, ast.Call) and isinstance(n.func, ast.Attribute) and n.func.attr in ("append", "extend", "insert", "clear", "pop", "__iadd__") and held(n.func.value):
                 impure.append((f, n))
+    from ..shared import held_buffer_mutations
+    for f in ser:
+        if not any(g is f for g, _n in impure) and held_buffer_mutations(prog, f):
+            impure.append((f, f.node))          # through helpers / conditional aliases (value-flow terms)
     for f, n in impure:
         ctx.ob("C12.g", f.qual, False, "", func=f.qual, file=f.module.rel, node=n,
                fail="tobytes mutates a buffer held by the object (in place / through an alias): serialising the same command again yields another frame")
@@ -396,6 +400,9 @@ def run(ctx):
         rets = [t for _pc, t, n, _ in cfs.returns if n is not None]
     ctx.ob("C12.e", "msmart.crc8.calculate", walk_ok, "calculate() is crc = TABLE[(crc ^ byte) & 0xFF] over the data, starting from 0", func="msmart.crc8.calculate",
            file=crcmod.rel, construct="table walk", fail="crc8.calculate is not the standard table walk from 0 over every byte")
+    from ..shared import check as shared_check
+    cbase = prog.cls(f"{CMD}.Command")
+    shared_check(ctx, "C12.g", [prog.cls(FRAME), cbase] + prog.subclasses(cbase), "the frame and command classes")
     ctx.require_min("frame_segments", 8)
     ctx.require_min("command_classes", 8)
     ctx.require_min("tobytes_returns", 8)
